@@ -118,7 +118,7 @@ func (w *World) Restart(ctx context.Context) error {
 		s.End()
 	}
 	w.Sess = nil
-	if err := w.SE.Close(); err != nil {
+	if err := w.closeEngine(); err != nil && !strings.HasPrefix(err.Error(), "panic while closing") {
 		return fmt.Errorf("engine close: %w", err)
 	}
 	if err := dbfactory.CloseAllLocalDatabases(); err != nil {
@@ -142,10 +142,27 @@ func (w *World) Close() {
 	}
 	w.Sess = nil
 	if w.SE != nil {
-		w.SE.Close()
+		w.closeEngine()
 	}
 	dbfactory.CloseAllLocalDatabases()
 }
+
+// closeEngine closes the SQL engine. SqlEngine.Close can panic ("close of closed channel": after some
+// version-control operations the provider holds two database entries that share one global state,
+// and each closes its sequence tracker); that is outside every listed property, and it must not keep
+// the stores from being closed - the next run of this process would find them open.
+func (w *World) closeEngine() (err error) {
+	defer func() {
+		if p := recover(); p != nil {
+			err = fmt.Errorf("panic while closing the engine: %v", p)
+			EngineClosePanics++
+		}
+	}()
+	return w.SE.Close()
+}
+
+// EngineClosePanics counts the panics met in closeEngine (reported as a probe by the harnesses that care).
+var EngineClosePanics int
 
 // NewSession opens a session the way the wire handler does: own connection id, autocommit set
 // explicitly, current database selected.
@@ -200,7 +217,7 @@ func (w *World) RestartAnyDB(ctx context.Context) error {
 		s.End()
 	}
 	w.Sess = nil
-	if err := w.SE.Close(); err != nil {
+	if err := w.closeEngine(); err != nil && !strings.HasPrefix(err.Error(), "panic while closing") {
 		return fmt.Errorf("engine close: %w", err)
 	}
 	if err := dbfactory.CloseAllLocalDatabases(); err != nil {
